@@ -756,6 +756,16 @@ pub fn gen_reply(r: &mut Rng, q: &Msg, nrec: usize, max_opaque: usize, hostile_n
             m.additional.push(rr);
         }
     }
+    if r.chance(1, 5) {
+        // the same record twice in a row (a weighted pool listing a backend twice): records are never dropped
+        for sec in [&mut m.answer, &mut m.authority, &mut m.additional] {
+            if !sec.is_empty() && r.bool() {
+                let k = r.usize(sec.len());
+                let dup = sec[k].clone();
+                sec.insert(k + 1, dup);
+            }
+        }
+    }
     if r.chance(3, 4) {
         let mut options = Vec::new();
         if r.chance(1, 4) {
